@@ -8,6 +8,8 @@ driver.
 from __future__ import annotations
 
 import math
+import operator
+import zlib
 from fractions import Fraction
 
 import numpy as np
@@ -126,7 +128,18 @@ def apply_op(pool: dict, op: list) -> str:
         elif name == "add":
             pool[op[1]].add(pool[op[2]], op[3], group=op[4])
         elif name == "plus":
-            pool[op[1]] = pool[op[2]] + pool[op[3]]
+            # the sum is spelled in every way Python offers (fixed per target name, so that a replay repeats it):
+            # `a + b`, `operator.add(a, b)`, and the augmented form on a second name bound to the left operand
+            # (`total = a; total += b`), which must rebind `total` and leave `a` alone
+            how = zlib.crc32(str(op[1]).encode()) % 3
+            if how == 0:
+                pool[op[1]] = pool[op[2]] + pool[op[3]]
+            elif how == 1:
+                pool[op[1]] = operator.add(pool[op[2]], pool[op[3]])
+            else:
+                total = pool[op[2]]
+                total += pool[op[3]]
+                pool[op[1]] = total
         elif name == "copy":
             pool[op[1]] = pool[op[2]].copy()
         elif name == "unpack":
